@@ -95,7 +95,7 @@ def build(repo, verif, canary=False, only_files=None, degrade=(), extern=()):
     for f in extract.FILES:
         if only_files is not None and f not in only_files:
             continue
-        w = weave.weave_file(f, src[f], fnspecs, blockitems, canary=canary, degrade=degrade, extern=extern)
+        w = weave.weave_file(f, src[f], fnspecs, blockitems, canary=canary, degrade=degrade, extern=extern, linemap=extract.LINEMAPS.get(f))
         b.skipped += w.skipped
         b.noterm += [(f, n) for n in w.noterm]
         base = len(b.lines)
